@@ -1,6 +1,7 @@
 """C03 check configuration."""
 
 PROP = {
+    "level_text_more": 'Blocked-host rules include regular expressions with classes written in upper case (\\\\D), and the networks include IPv4 networks spelled in IPv4-mapped form (::ffff:192.0.2.0/120).',
     "thorough_scale": 4,
     "pkg": "internal/dnsforward",
     "files": ["dnsforward/common_world_test.go", "dnsforward/c01_test.go", "dnsforward/c03_test.go"],
